@@ -26,6 +26,7 @@ use std::{
     time::{Duration, Instant},
 };
 
+use futures_core::Stream;
 use zbus::connection::socket::{ReadHalf, Socket, Split, WriteHalf};
 use zbus::{Connection, Message};
 
@@ -590,11 +591,428 @@ fn k_mode(w: &[&str]) -> String {
     st.out.join(",")
 }
 
+// ------------------------------------------------------------------ C20: message streams
+//
+// S <rules> <steps>
+//   rules = rule specs joined by `,`: two characters, interface A|B|* and member 1|2|*  (`A1` = type='signal',interface='v.A',
+//           member='M1'; `**` = type='signal'); equal specs are equal rules
+//   steps = joined by `,`:
+//           A<s>:<j>:<q|->  start MessageStream::for_match_rule(rule j, conn, max_queued q) for stream id s and poll it once
+//           a<s>            poll that pending creation again
+//           U<s>            MessageStream::from(&conn) (unfiltered) as stream s
+//           p<s>            poll stream s once (poll_next)
+//           d<s>            drop stream s
+//           x<s> / y<s>     start AsyncDrop::async_drop(stream s) and poll it once / poll it again
+//           c<s>:<s2>       stream s2 = stream s .clone()
+//           q<s>:<n>        stream s .set_max_queued(n)
+//           t               tick the executor once
+//           M<i><m>         the peer sends signal interface i (A|B) member m (1|2); MR a method return; MC a method call
+//           E / X           end of stream / read error
+//   after the listed steps the harness drains: tick until idle, poll pending creations/async drops, poll every live stream until
+//   it is Pending, until nothing moves.
+//   observation = `<step>=<what happened>@<state>` joined by `,`; state = <msg_senders>;<subscriptions>;<unfiltered channel>
+//     msg_senders   `L` (locked) or the keys in iteration order with their channel: `*`|`R`|`E`|`r<j>` `:<queue>/<cap>/<receivers>[c]`
+//     subscriptions `L` or, sorted, `r<j>:<refcount>:<queue>/<cap>/<receivers>[c]`   (j = first index of an equal rule)
+
+fn rule_of(spec: &str) -> Option<zbus::MatchRule<'static>> {
+    let b = spec.as_bytes();
+    if b.len() != 2 {
+        return None;
+    }
+    let mut r = zbus::MatchRule::builder().msg_type(zbus::message::Type::Signal);
+    r = match b[0] {
+        b'A' => r.interface("v.A").ok()?,
+        b'B' => r.interface("v.B").ok()?,
+        b'*' => r,
+        _ => return None,
+    };
+    r = match b[1] {
+        b'1' => r.member("M1").ok()?,
+        b'2' => r.member("M2").ok()?,
+        b'*' => r,
+        _ => return None,
+    };
+    Some(r.build())
+}
+
+fn chan_tok(i: Option<(usize, usize, usize, bool)>) -> String {
+    match i {
+        Some((q, cap, n, c)) => format!("{}/{}/{}{}", q, cap, n, if c { "c" } else { "" }),
+        None => "?".into(),
+    }
+}
+
+/// (key text as it appears in `msg_senders`, key text in `subscriptions`, label)
+fn snapshot(conn: &Connection, keys: &[(String, String, String)]) -> String {
+    let d = format!("{:?}", conn);
+    let cut = |from: &str, to: &str| -> Option<&str> {
+        let a = d.find(from)? + from.len();
+        let b = d[a..].find(to)? + a;
+        Some(&d[a..b])
+    };
+    let senders = match cut("msg_senders: Mutex { data: ", ", subscriptions: Mutex { data: ") {
+        None => "?".to_string(),
+        Some(sec) if sec.starts_with("<locked>") => "L".to_string(),
+        Some(sec) => {
+            let mut found: Vec<(usize, String)> = vec![];
+            let fixed = [
+                ("None: Sender".to_string(), "*".to_string()),
+                ("Some(OwnedMatchRule(MatchRule { msg_type: Some(MethodReturn), sender: None, interface: None, member: None".to_string(), "R".to_string()),
+                ("Some(OwnedMatchRule(MatchRule { msg_type: Some(Error), sender: None, interface: None, member: None".to_string(), "E".to_string()),
+            ];
+            for (k, lab) in fixed.iter().cloned().chain(keys.iter().map(|(a, _, l)| (a.clone(), l.clone()))) {
+                if let Some(pos) = sec.find(&k) {
+                    found.push((pos, format!("{}:{}", lab, chan_tok(parse_inner(&sec[pos..])))));
+                }
+            }
+            found.sort();
+            found.into_iter().map(|(_, t)| t).collect::<Vec<_>>().join(".")
+        }
+    };
+    let subs = match cut(", subscriptions: Mutex { data: ", ", object_server: ") {
+        None => "?".to_string(),
+        Some(sec) if sec.starts_with("<locked>") => "L".to_string(),
+        Some(sec) => {
+            let mut found: Vec<String> = vec![];
+            for (_, k, lab) in keys {
+                let pat = format!("{}: (", k);
+                if let Some(pos) = sec.find(&pat) {
+                    let rest = &sec[pos + pat.len()..];
+                    let rc: String = rest.chars().take_while(|c| c.is_ascii_digit()).collect();
+                    found.push(format!("{}:{}:{}", lab, rc, chan_tok(parse_inner(rest))));
+                }
+            }
+            found.join(".")
+        }
+    };
+    let unf = chan_tok(cut("msg_receiver: ", ", method_return_receiver: ").and_then(parse_inner));
+    format!("{};{};{}", senders, subs, unf)
+}
+
+type AddFut = Pin<Box<dyn Future<Output = zbus::Result<zbus::MessageStream>>>>;
+type DropFut = Pin<Box<dyn Future<Output = ()>>>;
+
+enum Slot {
+    Adding(AddFut),
+    Live(zbus::MessageStream),
+    Dropping(DropFut),
+    Gone,
+}
+
+struct SState {
+    sh: Arc<Mutex<Shared>>,
+    conn: Connection,
+    rules: Vec<zbus::MatchRule<'static>>,
+    keys: Vec<(String, String, String)>,
+    slots: HashMap<usize, Slot>,
+    next_item: usize,
+    out: Vec<String>,
+}
+
+fn item_of(m: &Message) -> String {
+    match m.body().deserialize::<u32>() {
+        Ok(k) => format!("m{}", k),
+        Err(_) => "m?".into(),
+    }
+}
+
+impl SState {
+    fn snap(&self) -> String {
+        snapshot(&self.conn, &self.keys)
+    }
+
+    fn poll_add(&mut self, s: usize) -> String {
+        let slot = self.slots.remove(&s);
+        match slot {
+            Some(Slot::Adding(mut f)) => match poll_once(f.as_mut()) {
+                Poll::Pending => {
+                    self.slots.insert(s, Slot::Adding(f));
+                    "P".into()
+                }
+                Poll::Ready(Ok(st)) => {
+                    let r = format!("ok{}", st.max_queued());
+                    self.slots.insert(s, Slot::Live(st));
+                    r
+                }
+                Poll::Ready(Err(e)) => {
+                    self.slots.insert(s, Slot::Gone);
+                    format!("E{}", &err_class(&e, 0)[1..])
+                }
+            },
+            other => {
+                if let Some(o) = other {
+                    self.slots.insert(s, o);
+                }
+                "-".into()
+            }
+        }
+    }
+
+    fn poll_drop(&mut self, s: usize) -> String {
+        let slot = self.slots.remove(&s);
+        match slot {
+            Some(Slot::Dropping(mut f)) => match poll_once(f.as_mut()) {
+                Poll::Pending => {
+                    self.slots.insert(s, Slot::Dropping(f));
+                    "P".into()
+                }
+                Poll::Ready(()) => {
+                    self.slots.insert(s, Slot::Gone);
+                    "ok".into()
+                }
+            },
+            other => {
+                if let Some(o) = other {
+                    self.slots.insert(s, o);
+                }
+                "-".into()
+            }
+        }
+    }
+
+    fn peer(&mut self, tok: &str) -> String {
+        let k = self.next_item;
+        let built: zbus::Result<Message> = (|| {
+            let b = tok.as_bytes();
+            if tok == "MR" {
+                let ghost = Message::method_call("/ghost", "Never")?.build(&())?;
+                return Message::method_return(&ghost.header())?.build(&(k as u32));
+            }
+            if tok == "MC" {
+                return Message::method_call("/s", "Ping")?.build(&(k as u32));
+            }
+            if b.len() != 3 {
+                return Err(zbus::Error::Unsupported);
+            }
+            let iface = match b[1] {
+                b'A' => "v.A",
+                b'B' => "v.B",
+                _ => return Err(zbus::Error::Unsupported),
+            };
+            let member = match b[2] {
+                b'1' => "M1",
+                b'2' => "M2",
+                _ => return Err(zbus::Error::Unsupported),
+            };
+            Message::signal("/s", iface, member)?.build(&(k as u32))
+        })();
+        match built {
+            Ok(m) => {
+                // which rules the real MatchRule::matches says it matches (the model's matcher is checked against this)
+                let mut hits: Vec<String> = vec![];
+                for (j, r) in self.rules.iter().enumerate() {
+                    if self.rules.iter().position(|x| x == r) == Some(j) && r.matches(&m).unwrap_or(false) {
+                        hits.push(format!("r{}", j));
+                    }
+                }
+                self.next_item += 1;
+                push_in(&self.sh, In::Msg(k, m.data().bytes().to_vec()));
+                format!("k{}{}{}", k, if hits.is_empty() { "" } else { "/" }, hits.join("/"))
+            }
+            Err(_) => "BADTOK".into(),
+        }
+    }
+
+    /// returns true if something observable happened
+    fn step(&mut self, tok: &str) -> bool {
+        let before = self.snap();
+        let kind = tok.as_bytes()[0] as char;
+        let args: Vec<&str> = tok[1..].split(':').collect();
+        let num = |i: usize| -> Option<usize> { args.get(i).and_then(|x| x.parse().ok()) };
+        let res: String = match kind {
+            'A' => match (num(0), num(1)) {
+                (Some(s), Some(j)) if j < self.rules.len() && !self.slots.contains_key(&s) => {
+                    let q: Option<usize> = args.get(2).and_then(|x| x.parse().ok());
+                    let rule = self.rules[j].clone();
+                    let conn = self.conn.clone();
+                    let f: AddFut = Box::pin(async move { zbus::MessageStream::for_match_rule(rule, &conn, q).await });
+                    self.slots.insert(s, Slot::Adding(f));
+                    self.poll_add(s)
+                }
+                _ => "-".into(),
+            },
+            'a' => match num(0) {
+                Some(s) => self.poll_add(s),
+                None => "-".into(),
+            },
+            'U' => match num(0) {
+                Some(s) if !self.slots.contains_key(&s) => {
+                    let st = zbus::MessageStream::from(&self.conn);
+                    let r = format!("ok{}", st.max_queued());
+                    self.slots.insert(s, Slot::Live(st));
+                    r
+                }
+                _ => "-".into(),
+            },
+            'p' => match num(0).and_then(|s| self.slots.get_mut(&s)) {
+                Some(Slot::Live(st)) => {
+                    let w = noop_waker();
+                    let mut cx = Context::from_waker(&w);
+                    match Pin::new(st).poll_next(&mut cx) {
+                        Poll::Pending => "P".into(),
+                        Poll::Ready(None) => "N".into(),
+                        Poll::Ready(Some(Ok(m))) => item_of(&m),
+                        Poll::Ready(Some(Err(e))) => format!("E{}", &err_class(&e, 0)[1..]),
+                    }
+                }
+                _ => "-".into(),
+            },
+            'd' => match num(0) {
+                Some(s) if matches!(self.slots.get(&s), Some(Slot::Live(_))) => {
+                    self.slots.insert(s, Slot::Gone);
+                    "ok".into()
+                }
+                _ => "-".into(),
+            },
+            'x' => match num(0) {
+                Some(s) if matches!(self.slots.get(&s), Some(Slot::Live(_))) => {
+                    if let Some(Slot::Live(st)) = self.slots.remove(&s) {
+                        use zbus::AsyncDrop;
+                        let f: DropFut = Box::pin(async move { st.async_drop().await });
+                        self.slots.insert(s, Slot::Dropping(f));
+                    }
+                    self.poll_drop(s)
+                }
+                _ => "-".into(),
+            },
+            'y' => match num(0) {
+                Some(s) => self.poll_drop(s),
+                None => "-".into(),
+            },
+            'c' => match (num(0), num(1)) {
+                (Some(s), Some(s2)) if !self.slots.contains_key(&s2) => match self.slots.get(&s) {
+                    Some(Slot::Live(st)) => {
+                        let c = st.clone();
+                        self.slots.insert(s2, Slot::Live(c));
+                        "ok".into()
+                    }
+                    _ => "-".into(),
+                },
+                _ => "-".into(),
+            },
+            'q' => match (num(0), num(1)) {
+                (Some(s), Some(n)) if n > 0 => match self.slots.get_mut(&s) {
+                    Some(Slot::Live(st)) => {
+                        st.set_max_queued(n);
+                        format!("ok{}", st.max_queued())
+                    }
+                    _ => "-".into(),
+                },
+                _ => "-".into(),
+            },
+            't' => {
+                let (ran, ev) = tick(&self.conn, &self.sh);
+                if ran {
+                    format!("1:{}", ev)
+                } else {
+                    "0".into()
+                }
+            }
+            'E' => {
+                push_in(&self.sh, In::Eof);
+                "k".into()
+            }
+            'X' => {
+                push_in(&self.sh, In::IoErr);
+                "k".into()
+            }
+            'M' => self.peer(tok),
+            _ => "BADTOK".into(),
+        };
+        let after = self.snap();
+        let moved = match kind {
+            't' => res != "0",
+            'p' | 'a' | 'y' => res != "P" && res != "-" && res != "N",
+            _ => res != "-",
+        };
+        self.out.push(format!("{}={}@{}", tok, res, after));
+        moved || before != after
+    }
+
+    fn drain(&mut self) {
+        for _ in 0..2_000 {
+            let mut moved = false;
+            for _ in 0..2_000 {
+                if !self.step("t") {
+                    break;
+                }
+                moved = true;
+            }
+            let mut ids: Vec<usize> = self.slots.keys().copied().collect();
+            ids.sort();
+            for s in ids {
+                let tok = match self.slots.get(&s) {
+                    Some(Slot::Adding(_)) => format!("a{}", s),
+                    Some(Slot::Dropping(_)) => format!("y{}", s),
+                    Some(Slot::Live(_)) => format!("p{}", s),
+                    _ => continue,
+                };
+                // a live stream is polled until it has nothing more to give
+                for _ in 0..200 {
+                    if !self.step(&tok) {
+                        break;
+                    }
+                    moved = true;
+                    if !tok.starts_with('p') {
+                        break;
+                    }
+                }
+            }
+            if !moved {
+                return;
+            }
+        }
+        self.out.push("HANG".into());
+    }
+}
+
+fn s_mode(w: &[&str]) -> String {
+    if w.len() != 3 {
+        return "BADCASE".into();
+    }
+    let mut rules = vec![];
+    if w[1] != "-" {
+        for spec in w[1].split(',') {
+            match rule_of(spec) {
+                Some(r) => rules.push(r),
+                None => return "BADCASE".into(),
+            }
+        }
+    }
+    let mut keys = vec![];
+    for (j, r) in rules.iter().enumerate() {
+        if rules.iter().position(|x| x == r) == Some(j) {
+            let owned: zbus::OwnedMatchRule = r.clone().into();
+            keys.push((format!("{:?}: Sender", Some(owned.clone())), format!("{:?}", owned), format!("r{}", j)));
+        }
+    }
+    let sh = Arc::new(Mutex::new(Shared::default()));
+    let conn = match connect(&sh, None) {
+        Ok(c) => c,
+        Err(e) => return e,
+    };
+    let mut st = SState { sh, conn, rules, keys, slots: HashMap::new(), next_item: 0, out: vec![] };
+    let first = format!("init@{}", st.snap());
+    st.out.push(first);
+    if w[2] != "-" {
+        for tok in w[2].split(',') {
+            if tok.is_empty() || !"AaUpdxycqtEXM".contains(tok.chars().next().unwrap()) {
+                return "BADCASE".into();
+            }
+            st.step(tok);
+        }
+    }
+    st.out.push("|".into());
+    st.drain();
+    st.out.join(",")
+}
+
 fn main() {
     hcommon::run(|line| {
         let w: Vec<&str> = line.split(' ').filter(|x| !x.is_empty()).collect();
         match w.first().copied() {
             Some("K") => k_mode(&w),
+            Some("S") => s_mode(&w),
             _ => "BADCASE".into(),
         }
     });
